@@ -39,7 +39,10 @@ type Behavior struct {
 	NeverUnchoke   bool
 	ChokeFlapEvery time.Duration // >0: toggle choke state periodically
 	ChokeFlaps     int           // >0: stop toggling after this many changes (2 = choke once, unchoke, stay unchoked)
-	AllowedFast    []uint32      // allowed-fast messages sent right after the bitfield (fast only)
+	// ExtAgain > 0: the extension handshake is sent a second time after this delay, announcing
+	// ut_pex (BEP 10 allows repeated handshakes that enable more extensions).
+	ExtAgain    time.Duration
+	AllowedFast []uint32 // allowed-fast messages sent right after the bitfield (fast only)
 
 	// Serving policy.
 	ServeDelay            [2]time.Duration
@@ -531,6 +534,16 @@ func (p *Peer) sendInitial() {
 	p.markAdvertised()
 	if p.ext() {
 		p.Send(p.extHandshake())
+		if p.B.ExtAgain > 0 {
+			go func() {
+				select {
+				case <-time.After(p.B.ExtAgain):
+					p.Send(EncExtended(0, map[string]any{"m": map[string]any{"ut_pex": p.myExtID("ut_pex")}}, nil))
+					simrt.Count("fault.peer.ext_handshake_again", 1)
+				case <-p.done:
+				}
+			}()
+		}
 	}
 	if p.fast() {
 		for _, i := range p.B.AllowedFast {
